@@ -879,3 +879,21 @@ fire('C01', 'buffer-put-rejected-by-get-side-list', 'C01.O9', 'BufferStore.put',
      lambda p: M.replace_node(p, S_BUF, 'BufferStore._trigger_put', lambda n: isinstance(n, ast.Attribute) and ast.unparse(n) == 'self.reservations_put', 'self.reservations_get', which=0))
 fire('C01', 'fleet-put-rejected-by-get-side-list', 'C01.O9', 'FleetStore.put',
      lambda p: M.replace_node(p, S_FLT, 'FleetStore.put', lambda n: isinstance(n, ast.Attribute) and ast.unparse(n) == 'self.reservations_put', 'self.reservations_get', which=0))
+fire('C17', 'combiner-worker-not-registered', 'C17.R10', 'worker-registered',
+     lambda p: M.delete_stmt(p, N_CMB, 'Combiner.behaviour', M.stmt_calling('self.worker_thread_list.append')))
+fire('C17', 'splitter-slot-not-counted', 'C17.R10', 'slot-counted',
+     lambda p: M.delete_stmt(p, N_SPL, 'Splitter.behaviour', M.stmt_calling('self._update_worker_occupancy'), which=0))
+fire('C17', 'splitter-classification-never-idle', 'C17.R9', 'classification',
+     lambda p: M.delete_stmt(p, N_SPL, 'Splitter.check_thread_state_and_update_splitter_state', M.stmt_calling('self.update_state', 'IDLE_STATE')))
+fire('C17', 'source-blocked-not-recorded', 'C17.R11', 'Source.behaviour',
+     lambda p: M.delete_stmt(p, N_SRC, 'Source.behaviour', M.stmt_calling('self.update_state', 'BLOCKED_STATE'), which=0))
+fire('C17', 'combiner-final-occupancy-not-closed', 'C17.R5', 'Combiner.update_final_state_time',
+     lambda p: M.delete_stmt(p, N_CMB, 'Combiner.update_final_state_time', M.stmt_calling('self._update_worker_occupancy')))
+fire('C13', 'slotted-stalled-kind-swapped', 'C13.R3', 'covers-empty-moving-stalled',
+     lambda p: M.replace_node(p, E_SC, 'ConveyorBelt.behaviour', lambda n: isinstance(n, ast.Attribute) and ast.unparse(n) == 'self.accumulating', 'not self.accumulating', which=0))
+fire('C20', 'combiner-behaviour-never-started', 'C20.R3', 'starts-behaviour',
+     lambda p: M.delete_stmt(p, N_CMB, 'Combiner.__init__', M.stmt_calling('self.env.process')))
+fire('C15', 'source-policy-name-never-resolved', 'C15.R7', 'out_edge_selection-wiring',
+     lambda p: M.delete_stmt(p, N_SRC, 'Source.reset', lambda n: isinstance(n, ast.Assign) and 'get_edge_selector' in ast.unparse(n)))
+fire('C15', 'source-range-check-off-by-one', 'C15.R3', 'out-range-check',
+     lambda p: M.replace_node(p, N_SRC, 'Source.behaviour', lambda n: isinstance(n, ast.Compare) and ast.unparse(n) == 'out_edge_index_to_put < 0', 'out_edge_index_to_put <= 0'))
